@@ -1043,6 +1043,21 @@ example : let input := "Add @?salt and @&(1)dough{}.".toList
     AllBlocksOf C02.env.cs input modsCore = false ∧ AllBlocksOf C02.env.cs input interCore = false := by
   decide +kernel
 
+/-- the premises of `C02_advanced_local_parse` and of `C02_inline_local_parse` are satisfiable by inputs
+    that use other extensions' syntax: `Mix @a|b{2-3} for ~{5%min}.` (alias, range; the quantity has no
+    blank-separated unit, the timer a time unit) and `Add 2 eggs to @a{1 kg}.` (advanced units; `eggs`
+    is no unit of the converter) -/
+example : let input := "Mix @a|b{2-3} for ~{5%min}.".toList
+    let evs := (pullEvents (α := Rat) C02.env.cs C02.env.ext input).1.toList
+    AllBlocksOf C02.env.cs input advCore = true ∧ AllBlocksOf C02.env.cs input aliasCore = false ∧
+    evs.all (advEvCore C02.env (evs.all (evNoBracket C02.env.cs))) = true := by
+  decide +kernel
+
+example : let input := "Add 2 eggs to @a{1 kg}.".toList
+    (pullEvents (α := Rat) C02.env.cs C02.env.ext input).1.toList.all (inlineEvCore Rat C02.env) = true ∧
+    AllBlocksOf C02.env.cs input advCore = false := by
+  decide +kernel
+
 /-- the agreement hypotheses are satisfiable by sets that really differ in the flag -/
 example : AgreeOn (otherFlagsAll [Gen.EXT_COMPONENT_ALIAS]) ⟨Gen.EXT_COMPONENT_ALIAS⟩ ⟨0⟩ ∧
     AgreeOn (otherFlagsAll [Gen.EXT_INLINE_QUANTITIES]) ⟨Gen.EXT_INLINE_QUANTITIES⟩ ⟨0⟩ ∧
